@@ -206,7 +206,7 @@ class Run:
                               "impl_events_recorded": nev, "events_not_ok": len(bad), "wall_s": round(time.time() - t0, 1)})
         return bad, nev
 
-    def validate_events(self, files, timeout=900, module="Trace_Events"):
+    def validate_events(self, files, timeout=900, module="Trace_Events", cfg_body=None):
         """Run one single-worker TLC per event file (in parallel); return [(event, verdicts)] for events that are not ok."""
         procs = []
         for i, f in enumerate(files):
@@ -214,7 +214,7 @@ class Run:
                 continue
             cfg = os.path.join(self.scratch, "%s_%d_%s.cfg" % (module, i, os.path.basename(f).replace(".", "_")))
             with open(cfg, "w") as c:
-                c.write('CONSTANT TraceFile = "%s"\nINIT Init\nNEXT Next\nINVARIANT Done\nCHECK_DEADLOCK FALSE\nPOSTCONDITION AllConsumed\n' % f)
+                c.write(('CONSTANT TraceFile = "%s"\n' % f) + (cfg_body or 'INIT Init\nNEXT Next\nINVARIANT Done\nCHECK_DEADLOCK FALSE\nPOSTCONDITION AllConsumed\n'))
             cmd = self.tlc_cmd(module, cfg, workers=1, heap="2g")
             procs.append((f, subprocess.Popen(cmd, cwd=self.scratch, stdout=subprocess.PIPE, stderr=subprocess.STDOUT, text=True)))
         bad = []
@@ -236,6 +236,29 @@ class Run:
                 for v in verdicts:
                     bad.append((json.loads(lines[v["i"] - 1]), v["v"]))
         return bad
+
+    def record_and_validate(self, n, seed_salt=0, maxlen=90, parse_only=50, chunks=None, pinned=None):
+        """T-mode: seeded random drivers on the real code (vh record) -> TLC (Trace_Api.tla). Returns [(event, verdicts)]."""
+        chunks = chunks or min(12, NCPU)
+        pre = os.path.join(self.scratch, "trace%d.ev" % seed_salt)
+        cmd = [self.vh, "record", "--seed", str(self.seed * 1000 + seed_salt), "--n", str(n), "--out", pre, "--chunks", str(chunks),
+               "--corpus", os.path.join(VERIF, "vectors", "urltestdata.json"), "--maxlen", str(maxlen), "--parse-only-percent", str(parse_only)]
+        if pinned:
+            cmd += ["--pinned", json.dumps(pinned)]
+        t0 = time.time()
+        p = subprocess.run(cmd, cwd=self.scratch, capture_output=True, text=True, timeout=600)
+        m = re.search(r"EVENTS kind=record n=(\d+) histories=(\d+)", p.stdout)
+        if p.returncode != 0 or not m:
+            raise Infra("record driver failed: %s %s" % (p.stdout[-1000:], p.stderr[-2000:]))
+        body = ('CONSTANTS\n NH = 3\n Dev <- DevImpl\n WithRT = FALSE\n WithLaw = FALSE\nINIT TInit\nNEXT TNext\nINVARIANT Done\n'
+                'CHECK_DEADLOCK FALSE\nPOSTCONDITION AllConsumed\n')
+        bad = self.validate_events(["%s.%d" % (pre, i) for i in range(chunks)], module="Trace_Api", cfg_body=body)
+        nev = int(m.group(1))
+        self.validated += nev
+        self.executions += nev
+        self.families.append({"family": "recorded-traces/%d" % seed_salt, "impl_events_recorded": nev, "histories": int(m.group(2)), "events_not_ok": len(bad),
+                              "wall_s": round(time.time() - t0, 1)})
+        return bad, nev
 
     # ---------- self-test of the oracle ----------
     def selftest(self):
